@@ -258,7 +258,7 @@ pub fn determinism(prop: Option<&str>, seeds: u64) -> i32 {
     if all || p == "C06" { twice(&Crash { long: false }, seeds.min(60), &mut bad); twice(&Crash { long: true }, seeds.min(40), &mut bad); }
     if all || p == "C07" { twice(&Docs { mode: DocsMode::Cap }, seeds, &mut bad); }
     if all || p == "C09" { twice(&Wire, seeds, &mut bad); twice(&Decoders { mode: PureMode::Codecs }, seeds, &mut bad); }
-    if all || p == "C10" { twice(&Session { enumerate: false }, seeds, &mut bad); }
+    if all || p == "C10" { twice(&Session { enumerate: false }, seeds, &mut bad); twice(&Session { enumerate: true }, seeds, &mut bad); }
     if all || p == "C11" { twice(&Coord, seeds.min(100), &mut bad); twice(&CoordReal, seeds.min(100), &mut bad); }
     if all || p == "C12" { twice(&Events { only_download: false }, seeds, &mut bad); }
     if all || p == "C14" { twice(&ActorScen { cap_focus: false, removal_focus: false, crash_focus: false }, seeds, &mut bad); }
